@@ -83,7 +83,7 @@ def run(ctx):
         for cfg in fcfgs:
             d = tempfile.mkdtemp(prefix="c12_", dir=str(common.WORK))
             try:
-                every = ctx.rng.choice([1, 2, 3])
+                every = [2, 1, 3, 2][fcfgs.index(cfg) % 4]
                 spy["log"] = []
                 fi = fcfgs.index(cfg)
                 refpath = common.as_user_path(os.path.join(d, common.ckpt_name("ref", fi + 1)), fi)
@@ -106,6 +106,19 @@ def run(ctx):
                 got = [i for i, _ in spy["log"]]
                 if got != [i for i, _ in want]:
                     ctx.violation(f"file-cadence:every={every}", f"file callback invoked at {got}, cadence dictates {want}", {"cfg": cfg, "every": every})
+                # the cadence asked for in the sampling call, the file taken from an enclosing auto_checkpoint(path) context
+                if every != 1:
+                    spy["log"] = []
+                    cpath = os.path.join(d, common.ckpt_name("ctx", fi))
+                    rc = sr.aspire_file_run(cfg, cpath, every=every, via_context=True)
+                    ctx.count((cfg["seed"], every, "context-route"), True, kind="file-cadence/path-from-context")
+                    if rc.error is None:
+                        gotc = [i for i, _ in spy["log"]]
+                        wantc = [i for i, _ in expected_cadence(len(rc.history.beta), True, every)]
+                        if gotc != wantc:
+                            ctx.violation(f"file-cadence:context-route:every={every}", f"with auto_checkpoint(path): sample_posterior(checkpoint_every={every}) wrote checkpoints at "
+                                          f"iterations {gotc}, the requested cadence dictates {wantc}", {"cfg": cfg, "every": every, "route": "auto_checkpoint context"})
+                    spy["log"] = []
                 ks = sorted(set([0, 1, 2, total // 2, total - 1] + [ctx.rng.randrange(0, total) for _ in range(ctx.scale(3, 40))]))
                 for k in ks:
                     path = common.as_user_path(os.path.join(d, common.ckpt_name(f"f{k}", k)), k)
